@@ -97,6 +97,16 @@ def check_case(case):
     spec = with_phases(base, phases, dict(zip(names, case["assign"])))
     if case.get("pc_first"):
         spec["pc_first"] = True
+    if case.get("rename"):
+        # phase names one of which CONTAINS the other ("p" / "pq", "tx burst" / "tx"): selection and membership are by equality, never by substring
+        ren = case["rename"]
+        spec["phases"] = {ren.get(k, k): v for k, v in spec["phases"].items()}
+        for c in spec["comps"]:
+            if isinstance(c.get("pc"), list):
+                c["pc"] = [ren.get(x, x) for x in c["pc"]]
+            elif isinstance(c.get("pc"), dict):
+                c["pc"] = {ren.get(k, k): v for k, v in c["pc"].items()}
+        phases = dict(spec["phases"])
     s, obs = phys.solve_and_check(res, spec, WANT, ta=-15.0)
     if obs is None:
         return res
@@ -146,13 +156,21 @@ def check_case(case):
         for n, rec in d.items():
             if rec.get("pc") and not (ph in rec["pc"]):
                 sleepers = True
-    try:
-        quiet_call(s.solve, phase="nope")
-        res.v(("C06.unknown-phase-accepted",), "solve(phase='nope') returned")
-    except ValueError:
-        pass
-    except Exception as e:
-        res.v(("C06.unknown-phase-exc", type(e).__name__), str(e))
+    names_ = list(phases)
+    probes = ["nope", "".join(names_), " ".join(names_), ",".join(names_)]
+    for p_ in names_:
+        probes += [p_ + "x", "x" + p_, p_ + " ", " " + p_, p_.upper() if p_.upper() != p_ else p_.lower(), p_[:-1] if len(p_) > 1 else p_ * 2]
+    for pr in probes:
+        if pr in phases or pr == "":
+            continue
+        for meth in (s.solve, s.rail_rep):
+            try:
+                quiet_call(meth, phase=pr)
+                res.v(("C06.unknown-phase-accepted", meth.__name__), "%s(phase=%r) returned although the phases are %r" % (meth.__name__, pr, names_))
+            except ValueError:
+                pass
+            except Exception as e:
+                res.v(("C06.unknown-phase-exc", type(e).__name__), str(e))
     res.nontrivial = 1 if (sleepers and sum(a is not None for a in case["assign"]) >= 2) else 0
     res.classes.add("configured=%d" % min(3, sum(a is not None for a in case["assign"])))
     return res
@@ -179,6 +197,10 @@ def gen_cases(tier):
                     opts[0] = [None, [list(phases)[0]]]  # larger trees: the source is either unconfigured or on in the first phase only
                 for assign in itertools.product(*opts):
                     yield dict(f=f, pal=pal, srs=0.37, assign=list(assign), ph3=ph3)
+                    if not ph3 and (n == 1 or (n == 2 and len(f) == 1)):
+                        yield dict(f=f, pal=pal, srs=0.37, assign=list(assign), ph3=ph3, rename={"a": "p", "b": "pq"})
+                        if n == 1:
+                            yield dict(f=f, pal=pal, srs=0.37, assign=list(assign), ph3=ph3, rename={"a": "tx burst", "b": "tx"})
                     if any(a is not None and "zz" in a for a in assign):  # configured BEFORE the system phases exist
                         yield dict(f=f, pal=pal, srs=0.37, assign=list(assign), ph3=ph3, pc_first=True)
     yield from gen_readd(tier, pal)
